@@ -1,7 +1,7 @@
 From AQ Require Import lib.Base model.Codec model.Varint model.RangeSet model.AckFrame model.Header.
 From AQ Require Import model.TlsCodec model.TParams proofs.TParamsProofs proofs.TParamsRoundtrip.
 From AQ Require Import proofs.CodecProofs proofs.VarintProofs proofs.AckFrameProofs proofs.HeaderProofs proofs.TlsCodecProofs.
-From AQ Require Import proofs.TlsListProofs proofs.TlsRoundtrip proofs.TlsTotal.
+From AQ Require Import proofs.TlsListProofs proofs.TlsRoundtrip proofs.TlsTotal proofs.TlsDumpInverse.
 
 (* ---- variable-length integers (RFC 9000 section 16) ---- *)
 Theorem varint_roundtrip : forall v rest, 0 <= v < 2 ^ 62 ->
@@ -336,3 +336,32 @@ Theorem finished_pull_total : forall bs,
   msg_good (pull_finished bs) /\ (forall t, bs = 20 :: t -> tls_good (pull_finished bs)).
 Proof. exact TlsTotal.finished_pull_total. Qed.
 Print Assumptions finished_pull_total.
+
+(* ---- the dump determines the message; the round trips at the level of records ---- *)
+Theorem tk_dump_inverse :
+  (forall m, tk_client_hello (dump_client_hello m) = m) /\ (forall m, tk_server_hello (dump_server_hello m) = m) /\
+  (forall m, tk_new_session_ticket (dump_new_session_ticket m) = m) /\
+  (forall m, tk_encrypted_extensions (dump_encrypted_extensions m) = m) /\
+  (forall m, tk_certificate (dump_certificate m) = m) /\
+  (forall m, tk_certificate_request (dump_certificate_request m) = m) /\
+  (forall m, tk_certificate_verify (dump_certificate_verify m) = m).
+Proof. exact TlsDumpInverse.tk_dump_inverse. Qed.
+Print Assumptions tk_dump_inverse.
+
+Theorem tls_roundtrip_records :
+  (forall m bytes rest, client_hello_wf m = true -> enc_seq (tree_client_hello m) = Ok bytes ->
+     decode_as pull_client_hello tk_client_hello (bytes ++ rest) = Ok (m, rest)) /\
+  (forall m bytes rest, server_hello_wf m = true -> enc_seq (tree_server_hello m) = Ok bytes ->
+     decode_as pull_server_hello tk_server_hello (bytes ++ rest) = Ok (m, rest)) /\
+  (forall m bytes rest, new_session_ticket_wf m = true -> enc_seq (tree_new_session_ticket m) = Ok bytes ->
+     decode_as pull_new_session_ticket tk_new_session_ticket (bytes ++ rest) = Ok (m, rest)) /\
+  (forall m bytes rest, encrypted_extensions_wf m = true -> enc_seq (tree_encrypted_extensions m) = Ok bytes ->
+     decode_as pull_encrypted_extensions tk_encrypted_extensions (bytes ++ rest) = Ok (m, rest)) /\
+  (forall m bytes rest, enc_seq (tree_certificate m) = Ok bytes ->
+     decode_as pull_certificate tk_certificate (bytes ++ rest) = Ok (m, rest)) /\
+  (forall m bytes rest, certificate_request_wf m = true -> enc_seq (tree_certificate_request m) = Ok bytes ->
+     decode_as pull_certificate_request tk_certificate_request (bytes ++ rest) = Ok (m, rest)) /\
+  (forall m bytes rest, certificate_verify_wf m = true -> enc_seq (tree_certificate_verify m) = Ok bytes ->
+     decode_as pull_certificate_verify tk_certificate_verify (bytes ++ rest) = Ok (m, rest)).
+Proof. exact TlsDumpInverse.tls_roundtrip_records. Qed.
+Print Assumptions tls_roundtrip_records.
